@@ -7,6 +7,7 @@ from tiv.astutil import (assigned_targets, body_walk, call_name, dotted, enclosi
                          guards, names_loaded, norm, short, stores_in, try_context, walk_local)
 from tiv.cfg import may_raise_sync
 from tiv.mutate import M
+from tiv.sem import same, literals, origin, _bindings as sem_bindings
 
 RULES = {
     "R1": "every termios.tcsetattr whose attribute argument is not a saved original lies inside the body of a "
@@ -81,11 +82,7 @@ def run(ck, m):
         gets = _tc_calls(fn, "tcgetattr")
         # classify: restore candidates = tcsetattr inside a finalbody
         restores = [c for c in sets if any(part == "finalbody" for _, part in try_context(c))]
-        saved_names = set()
-        for r in restores:
-            if len(r.args) >= 3 and isinstance(r.args[2], ast.Name):
-                saved_names.add(r.args[2].id)
-        modifies = [c for c in sets if not (len(c.args) >= 3 and isinstance(c.args[2], ast.Name) and c.args[2].id in saved_names and c in restores)]
+        modifies = [c for c in sets if c not in restores]
         n_modify += len(modifies)
         n_restore += len(restores)
 
@@ -94,63 +91,47 @@ def run(ck, m):
         ck.ob("R5", fn, bool(restores) or not unprotected,
               "function changes terminal attributes but has no restoring tcsetattr in a finally", stmt=f"def {fn.name}")
 
-        # R2: pristine saved originals
-        for old in sorted(saved_names):
-            binds = _bindings(fn, old)
-            ok_bind = (len(binds) == 1 and isinstance(binds[0], (ast.Assign, ast.AnnAssign))
-                       and isinstance(binds[0].value, ast.Call)
-                       and (call_name(binds[0].value) or "").split(".")[-1] == "tcgetattr"
-                       and len(assigned_targets(binds[0])) == 1)
-            ck.ob("R2", binds[0] if binds else fn, ok_bind,
-                  f"saved original `{old}` must be bound exactly once directly from termios.tcgetattr(fd) "
-                  f"(found {len(binds)} binding(s): {[short(b, 60) for b in binds]})",
-                  stmt=f"bind {old}: " + "; ".join(short(b, 80) for b in binds))
-            # binding is not inside the protecting try body (must precede it)
-            for b in binds:
-                inside = [t for t, part in try_context(b) if any(r for r in restores if t in [x for x, p in try_context(r) if p == "finalbody"])]
-                ck.ob("R2", b, not inside, f"`{old}` is saved inside the try that restores it; a failure before the save would restore an unbound/stale value",
-                      stmt=f"save-before-try {old}: {short(b, 80)}")
-            # uses of OLD: only as 3rd argument of the restoring tcsetattr
-            for n in body_walk(fn):
-                if isinstance(n, ast.Name) and n.id == old and isinstance(n.ctx, ast.Load):
-                    p = n._p
-                    is_restore_arg = isinstance(p, ast.Call) and p in restores and len(p.args) >= 3 and p.args[2] is n
+        # R2: pristine saved originals (alias chains are followed with sem.origin; renames and helper extraction do not matter)
+        def _is_get(e):
+            return isinstance(e, ast.Call) and (call_name(e) or "").split(".")[-1] == "tcgetattr"
+        saved_calls = {}
+        for r in restores:
+            a3 = r.args[2] if len(r.args) >= 3 else None
+            o = origin(fn, a3) if a3 is not None else None
+            ck.ob("R2", enclosing_stmt(r), o is not None and _is_get(o),
+                  f"the attributes restored by `{short(r, 60)}` must be exactly what termios.tcgetattr() returned on entry; they come from `{short(o, 50) if o is not None else None}`",
+                  stmt=f"{fn.name}: restored value originates from tcgetattr()")
+            if o is not None and _is_get(o):
+                saved_calls[id(o)] = o
+                inside = [t for t, part in try_context(o) if part == "body" and any(t2 is t and p2 == "finalbody" for t2, p2 in try_context(r))]
+                ck.ob("R2", enclosing_stmt(o), not inside, "the original attributes are read inside the try that restores them; a failure before the read would restore an unbound/stale value",
+                      stmt=f"{fn.name}: saved before the protecting try")
+        # every local whose value aliases a saved original
+        binds, params = sem_bindings(fn)
+        aliases = {nm for nm in binds if id(origin(fn, ast.Name(id=nm, ctx=ast.Load()))) in saved_calls}
+        for n in body_walk(fn):
+            if isinstance(n, (ast.Subscript, ast.Attribute)) and isinstance(n.ctx, (ast.Store, ast.Del)):
+                base = n
+                while isinstance(base, (ast.Subscript, ast.Attribute)):
+                    base = base.value
+                if isinstance(base, ast.Name) and base.id in aliases:
                     st = enclosing_stmt(n)
-                    ck.ob("R2", st, is_restore_arg,
-                          f"saved original `{old}` is read outside the restore ({short(st, 70)}): it may be aliased, copied shallowly or mutated",
-                          stmt=f"use {old}: {short(st, 100)}")
-                if isinstance(n, (ast.Subscript, ast.Attribute)) and isinstance(n.ctx, (ast.Store, ast.Del)):
-                    base = n
-                    while isinstance(base, (ast.Subscript, ast.Attribute)):
-                        base = base.value
-                    if isinstance(base, ast.Name) and base.id == old:
-                        st = enclosing_stmt(n)
-                        ck.ob("R2", st, False, f"store into the saved original `{old}`", stmt=f"mutate {old}: {short(st, 100)}")
-        # the modified lists must come from their own tcgetattr
+                    ck.ob("R2", st, False, f"`{short(st, 60)}` modifies the saved original attributes (through `{base.id}`): the restore would then install the modified values", stmt=f"{fn.name}: mutation of the saved original")
         for c in modifies:
             a = c.args[2] if len(c.args) >= 3 else None
             st = enclosing_stmt(c)
-            if isinstance(a, ast.Name):
-                binds = _bindings(fn, a.id)
-                via = [b for b in binds if isinstance(b, ast.With) and any(
-                    isinstance(i.context_expr, ast.Call) and (call_name(i.context_expr) or "").split(".")[-1] in helpers for i in b.items)]
-                if via and len(via) == len(binds):
-                    hname = next((call_name(i.context_expr) or "").split(".")[-1] for i in via[0].items if isinstance(i.context_expr, ast.Call))
-                    hfn, _fd, yielded = helpers[hname]
-                    hb = _bindings(hfn, yielded) if yielded else []
-                    okh = bool(hb) and all(isinstance(b, (ast.Assign, ast.AnnAssign)) and isinstance(b.value, ast.Call)
-                                           and (call_name(b.value) or "").split(".")[-1] == "tcgetattr" for b in hb)
-                    ck.ob("R2", st, okh, f"the list yielded by {hname}() must come from its own tcgetattr() call", stmt=f"modified-list {a.id} via {hname}")
-                    continue
-                ok = bool(binds) and all(
-                    isinstance(b, (ast.Assign, ast.AnnAssign)) and isinstance(b.value, ast.Call)
-                    and (call_name(b.value) or "").split(".")[-1] == "tcgetattr" for b in binds)
-                ck.ob("R2", st, ok,
-                      f"the attribute list `{a.id}` that is modified and installed must be bound from its own "
-                      f"termios.tcgetattr() call, not derived from the saved original ({[short(b, 60) for b in binds]})",
-                      stmt=f"modified-list {a.id}: " + "; ".join(short(b, 80) for b in binds))
+            o = origin(fn, a) if a is not None else None
+            if o is not None and _is_get(o):
+                ck.ob("R2", st, id(o) not in saved_calls,
+                      "the attribute list that is modified and installed is the very object saved for the restore (alias): modifying it also changes what is put back", stmt=f"{fn.name}: modified list is not the saved original")
             else:
-                ck.ob("R2", st, False, "tcsetattr installs an attribute expression that is not a named local", stmt=st)
+                # derived from something else: a (shallow) copy of the saved original shares its `cc` sub-list
+                derived_from_saved = o is not None and any(isinstance(x, ast.Name) and x.id in aliases for x in ast.walk(o))
+                deep = o is not None and isinstance(o, ast.Call) and (call_name(o) or "").endswith("deepcopy")
+                ck.ob("R2", st, not derived_from_saved or deep,
+                      f"the attribute list that is modified is derived from the saved original by `{short(o, 50) if o is not None else None}` (a shallow copy shares the control-character sub-list that read_tty writes into): "
+                      "the restore would put back modified VMIN/VTIME", stmt=f"{fn.name}: modified list is independent of the saved original")
+                ck.expect(derived_from_saved or deep or (o is not None and isinstance(o, ast.Call)), f"{q}: cannot determine where the installed attribute list `{short(a, 30)}` comes from")
 
         # R1 / R3 / R4
         for c in modifies:
@@ -161,7 +142,7 @@ def run(ck, m):
                 if part != "body":
                     continue
                 for r in restores:
-                    if any(t2 is t and p2 == "finalbody" for t2, p2 in try_context(r)) and r.args and norm(r.args[0]) == fd:
+                    if any(t2 is t and p2 == "finalbody" for t2, p2 in try_context(r)) and r.args and same(fn, r.args[0], c.args[0]):
                         prot = (t, r)
                         break
                 if prot:
@@ -175,26 +156,16 @@ def run(ck, m):
             if not prot:
                 continue
             t, r = prot
-            gm, gr = _gset(c), _gset(r)
+            gm, gr = literals(fn, c), literals(fn, r)
             ck.ob("R3", enclosing_stmt(r), gr <= gm,
                   f"the restore is guarded by {sorted(gr - gm)} which the modification is not: the restore can be skipped after a modification",
                   stmt=f"restore-guard: {short(enclosing_stmt(r), 90)} vs modify {short(st, 60)}")
-            old = r.args[2].id if len(r.args) >= 3 and isinstance(r.args[2], ast.Name) else None
-            for b in (_bindings(fn, old) if old else []):
-                gs = _gset(b)
+            o_ = origin(fn, r.args[2]) if len(r.args) >= 3 else None
+            for b in ([enclosing_stmt(o_)] if o_ is not None and isinstance(o_, ast.Call) else []):
+                gs = literals(fn, b)
                 ck.ob("R3", b, gs <= gm,
                       f"the save is guarded by {sorted(gs - gm)} which the modification is not: a modification can happen without a saved original",
                       stmt=f"save-guard: {short(b, 80)} vs modify {short(st, 60)}")
-            for tst, _b in guards(c):
-                for nm in names_loaded(tst):
-                    bs = _bindings(fn, nm)
-                    if bs or nm in {a.arg for a in fn.args.args + fn.args.kwonlyargs}:
-                        ok = len(bs) <= 1 and all(b.lineno < t.lineno for b in bs)
-                        if nm in {a.arg for a in fn.args.args + fn.args.kwonlyargs} and not bs:
-                            ok = True
-                        if any((tt, pp) for tt, pp in try_context(c) if tt is t) and norm(tst) in {g for g, _ in gr}:
-                            ck.ob("R3", tst, ok, f"guard variable `{nm}` is reassigned between save, modification and restore",
-                                  stmt=f"guard-var {nm} in {fn.name}")
         for r in restores:
             # R4: statements before the restore in its finalbody
             for t, part in try_context(r):
